@@ -104,7 +104,38 @@ def run_cli(paths, rname, cwd):
     return p.returncode, p.stdout, p.stderr
 
 
-def check_cli(ctx, texts, rname, source, tmpdir, repeat=False):
+def run_cli_inprocess(paths, rname, cwd):
+    """mistletoe.cli.main in this process, stdout captured at the byte level (the CLI writes to sys.stdout.buffer)."""
+    import io
+    from mistletoe import cli
+    old_out, old_cwd = sys.stdout, os.getcwd()
+    buf = io.BytesIO()
+    sys.stdout = io.TextIOWrapper(buf, encoding='utf-8', write_through=True)
+    try:
+        os.chdir(cwd)
+        argv = ['-r', CLI_PATH[rname]] + paths
+        if len(paths) % 2:
+            # the `python -m mistletoe` entry function, with sys.argv as the interpreter would set it
+            from mistletoe import __main__ as entry
+            old_argv = sys.argv
+            sys.argv = ['mistletoe'] + argv
+            try:
+                entry.main()
+            finally:
+                sys.argv = old_argv
+        else:
+            cli.main(argv)
+        sys.stdout.flush()
+        return 0, buf.getvalue(), b''
+    except SystemExit as e:
+        return (e.code if isinstance(e.code, int) else 1), buf.getvalue(), str(e.code).encode()
+    finally:
+        sys.stdout = old_out
+        os.chdir(old_cwd)
+        mt.reset()
+
+
+def check_cli(ctx, texts, rname, source, tmpdir, repeat=False, inprocess=False):
     """texts: list of document texts -> one CLI invocation over that many files."""
     ctx.ev()
     names = []
@@ -124,7 +155,7 @@ def check_cli(ctx, texts, rname, source, tmpdir, repeat=False):
         ctx.count('ambient', 'C01:' + mt.exc_site(e))
         return
     try:
-        rc, out, err = run_cli([names[i] for i in order], rname, tmpdir)
+        rc, out, err = (run_cli_inprocess if inprocess else run_cli)([names[i] for i in order], rname, tmpdir)
     except subprocess.TimeoutExpired:
         ctx.note('a CLI invocation hit the 120 s wall-clock watchdog (inconclusive for that case)')
         ctx.count('cli', 'watchdog')
@@ -142,8 +173,8 @@ def check_cli(ctx, texts, rname, source, tmpdir, repeat=False):
         ctx.violation('output-differs', 'cli files=%d%s renderer=%s' % (len(order), ' (repeated names)' if repeat else '', rname), case,
                       expected=expected, observed=got)
     else:
-        ctx.count('equal', 'cli x%d%s' % (len(order) if len(order) < 3 else 3, '+' if len(order) >= 3 else ''))
-        ctx.count('cli', 'invocations')
+        ctx.count('equal', 'cli%s x%d%s' % ('(in-process)' if inprocess else '', len(order) if len(order) < 3 else 3, '+' if len(order) >= 3 else ''))
+        ctx.count('cli', 'in-process invocations' if inprocess else 'invocations')
         ctx.count('cli', 'files', len(order))
 
 
@@ -193,6 +224,9 @@ def run(ctx):
                 ctx.count('skipped_by_filter', 'non-LF line terminator')
                 continue
             check_inproc(ctx, text, rng.choice(RENDERERS), kind, tmpdir)
+            if k % 4 == 0:
+                texts = [text] if rng.random() < 0.7 else [text, rng.choice(workloads.spec())['markdown'], text]
+                check_cli(ctx, texts, rng.choice(RENDERERS), kind, tmpdir, repeat=len(texts) > 1 and rng.random() < 0.5, inprocess=True)
             if k < 2:
                 ctx.sample({'source': kind, 'text': text})
         # CLI, one file per invocation
